@@ -441,6 +441,10 @@ func baseSpecs(level int) []baseSpec {
 		}
 		out = append(out, s)
 	}
+	// integer bounds that no float64 represents exactly, and the extremes
+	for _, mm := range [][2]int{{-(1<<53 + 1), 1<<53 + 1}, {-(1<<62 + 1), 1<<62 + 1}, {math.MinInt64, math.MaxInt64}, {0, 4294967295}} {
+		out = append(out, baseSpec{typ: "integer", minI: ip(mm[0]), maxI: ip(mm[1])})
+	}
 	out = append(out, baseSpec{typ: "string", enum: []interface{}{"one"}}, baseSpec{typ: "string", enum: []interface{}{"a", "b", "c"}},
 		baseSpec{typ: "integer", enum: []interface{}{float64(1), float64(2)}}, baseSpec{typ: "real", enum: []interface{}{1.5, 2.5}}, baseSpec{typ: "boolean", enum: []interface{}{true}},
 		baseSpec{typ: "string", enum: []interface{}{"a", "b"}, minL: ip(1), maxL: ip(8)},
